@@ -326,7 +326,15 @@ def clause_wiring(R):
     for nm, mut in (("f", False), ("g", False), ("F", True), ("G", True)):
         args.append(S.cell(st, nm, c04.ipoly(S, st, nm, i32, -B, B), mut=mut))
     n_obl0 = len(ctx.obl)
+    edges = []
+
+    def obs_edge(ev, **kw):
+        if ev == "edge" and not ctx.quiet and kw["frame"].inst is br:
+            d = kw["discr"]
+            edges.append((kw["bb"], kw["target"], (kw["st"].taint.get(d.vid) if type(d) is I else None) or frozenset()))
+    ctx.observers.append(obs_edge)
     outs = S.run(br, args, st)
+    ctx.observers.remove(obs_edge)
     site = "babai_reduce_i32"
     # integer-logarithm preconditions met on the way (the bit-size helper): must hold for every input, all-zero (F, G) included —
     # the big-integer sibling returns Ok there, so a panic here is a disagreement inside the property's domain (defect D7, fixed)
@@ -343,6 +351,35 @@ def clause_wiring(R):
     ntt_k = [c[1] for c in ntts if c[2] == [frozenset({f"round(q[{i}].re)"}) for i in range(NN)]]
     R.check(len(set(ntt_f)) == 1 and len(set(ntt_g)) == 1 and len(set(ntt_k)) == 1 and len({c[1] for c in ntts}) == 3, "C17-wiring", site + " transforms",
             "three modular transforms: of f, of g, and of k = round(Re(quotient)) coefficient by coefficient", f"modular transforms seen: {[(c[1], c[2]) for c in ntts][:6]}", key="w|ntt")
+    # loop exits: in the reference (and in the big-integer sibling) the reduction loop is left when the rounded quotient k is
+    # zero, or when size(F, G) < size(f, g) with both sizes at least 53 bits — which 32-bit inputs never reach. So for i32
+    # inputs no FEASIBLE exit of the loop that computes k may be decided by the raw magnitudes of f, g, F, G (labels f[i], ..;
+    # the transforms cut those labels, so the k = 0 exit and the iteration cap carry none of them).
+    body = ctx.body(br)
+    S.E.loop_depth(body)
+    loops = getattr(body, "_loop_bodies", {})
+    main = None
+    if ntt_k:
+        cands = [b_ for h, b_ in loops.items() if ntt_k[0] in b_]
+        main = max(cands, key=len) if cands else None
+    if main is None:
+        R.assumed("C17-exit", site + " loop exits", "the loop that computes k was not found in babai_reduce_i32 own body (moved into a helper?): exits not decided", key="exit|raw")
+    else:
+        raw = {f"{nm}[{i}]" for nm in "fgFG" for i in range(NN)}
+        ex = [(b_, t, sorted(l & raw)) for (b_, t, l) in edges if b_ in main and t not in main]
+        bad = [e for e in ex if e[2]]
+        R.check(not bad, "C17-exit", site + " loop exits",
+                f"{len(ex)} feasible exit edge(s) of the reduction loop, none decided by the raw magnitudes of f, g, F, G (the size guard max(53, ..) < max(53, ..) is dead for 32-bit inputs, as in the reference)",
+                f"exit edge bb{bad[0][0]} -> bb{bad[0][1]} at {body.span_of(bad[0][0])} is feasible and depends directly on {bad[0][2][:4]}: the loop can be left although the rounded quotient is not zero (the big-integer sibling keeps reducing)" if bad else "",
+                key="exit|raw")
+        R.floor("feasible exits of the reduction loop", len(ex), 1)
+        # the reduction iterates: after an update with k != 0 the quotient is computed again (the loop's back edge is feasible).
+        # One pass is not enough for the property's "a second reduction is the identity": the first rounded quotient can be
+        # off by a few units for ill-conditioned (f, g), which the following passes repair.
+        R.check(len(ntt_k) >= 2, "C17-exit", site + " iteration",
+                f"the transform of k is reached again after an update ({len(ntt_k)} abstract evaluations: first pass and the joined later passes)",
+                f"the quotient is computed only once ({len(ntt_k)} abstract evaluation): every path leaves the loop after the first update, so (F, G) is returned without the confirming pass and need not be reduced",
+                key="exit|iterates")
     hm = {c[1]: c[2] for c in calls if c[0] == "hmul"}
     it = {c[1]: c[2] for c in calls if c[0] == "intt"}
     ok = len(hm) == 2 and len(it) == 2 and ntt_f and ntt_g and ntt_k
